@@ -133,3 +133,10 @@ contract(F + "Alignment.gamma_k_disorder#not-combined",
          raises={"TypeError": {"iff": "true()"}},
          notes="gamma-cat / gamma-k are refused for dissimilarities that are not the combined one",
          serves={"C12"})
+
+# ------------------------------------------------------------------------------------------ Alignment.disorder (cached case)
+contract(F + "Alignment.disorder", params={"self": ALIGN()}, returns=RealT(), is_property=True, modifies=["self._disorder"],
+         requires=["not isnone(self._disorder)"],
+         ensures=[cl("result == some(old(self._disorder)) and self._disorder == old(self._disorder)", "C03 C05", name="the-cached-value")],
+         notes="the uncached branch (sum of unitary disorders over the mean number of units) is exercised by the bounded stand-in of C03",
+         serves={"C03", "C05", "C10"})
